@@ -51,7 +51,7 @@ class PoolWorld(World):
     STUB = ["threading.Event/Lock (simulated, baton scheduler)", "time (virtual clock)",
             "sockets + selector (in-memory)", "Worker.__hash__ (index based)", "jobs (scripted durations)"]
     PROBES = ["refused", "worker_retired", "worker_created", "close_with_running_jobs", "preempted",
-              "server_layer", "refused_on_wire", "worker_reused", "close_races_submission", "submit_after_close_refused", "stalled"]
+              "server_layer", "refused_on_wire", "worker_reused", "close_races_submission", "submit_after_close_refused", "stalled", "silent_client"]
     RULE = ("plan = (layer, THREADPOOL_SIZE, THREADPOOL_SIZE_MIN, per job: duration and gap before the next "
             "submission, optional close time, pre-emption probabilities); distinct = distinct interleaving digest "
             "(sequence of thread switches, pre-emption sites and socket events); non-trivial = at least one "
@@ -77,6 +77,14 @@ class PoolWorld(World):
                 dur = rng.choice([0, 0.01, 0.1, 0.5])
                 gap = rng.choice([0, 0, 0.01, 0.1, 0.6])
             jobs.append({"dur": dur, "gap": gap, "calls": rng.randint(0, 2)})
+        commt = 0.0
+        if layer == "server" and rng.random() < 0.35:
+            # a configured communication timeout, and clients that connect and then say nothing for a long time: the
+            # refusal handshake (read by the accept loop itself) must give up on them after COMMTIMEOUT
+            commt = 2.0
+            for j in jobs:
+                if rng.random() < 0.3:
+                    j["silent"] = 10.0
         close = None
         if rng.random() < 0.5:
             close = {"after": rng.choice([0, 0, 0.001, 0.01, 0.05, 0.3])}
@@ -85,7 +93,7 @@ class PoolWorld(World):
         p_stall = rng.choice([0.0, 0.0, 0.01, 0.03]) if layer == "pool" else rng.choice([0.0, 0.0, 0.0, 0.01])
         if close and "during" in close:
             p_stall = rng.choice([0.02, 0.05, 0.1])
-        return {"layer": layer, "size": size, "min": mn, "jobs": jobs, "close": close, "p_stall": p_stall,
+        return {"layer": layer, "size": size, "min": mn, "jobs": jobs, "close": close, "p_stall": p_stall, "commtimeout": commt,
                 "p_line": rng.choice([0.0, 0.02, 0.05, 0.1, 0.2, 0.3]),
                 "p_block": rng.choice([0.0, 0.3, 0.6, 1.0])}
 
@@ -98,7 +106,7 @@ class PoolWorld(World):
         config.THREADPOOL_SIZE = plan["size"]
         config.THREADPOOL_SIZE_MIN = plan["min"]
         config.POLLTIMEOUT = 2.0
-        config.COMMTIMEOUT = 0.0
+        config.COMMTIMEOUT = plan.get("commtimeout", 0.0) if plan["layer"] == "server" else 0.0
         config.SERVERTYPE = "thread"
         sched = ctx.sched
         workers = []
@@ -338,6 +346,17 @@ class PoolWorld(World):
                 try:
                     sk = net.connect_raw(addr, timeout=30.0)
                     r["conn"] = sk.conn
+                    if j.get("silent"):
+                        # connects and says nothing; whatever the server does with it, it leaves after a while
+                        ctx.probe("silent_client")
+                        r["state"] = "silent"
+                        sk.settimeout(j["silent"])
+                        try:
+                            sk.recv(4096)
+                        except OSError:
+                            pass
+                        sk.close()
+                        return
                     payload = marshal.dumps({"handshake": "hello", "object": "echo"})
                     sk.sendall(N.build_message(N.MSG_CONNECT, 0, 0, N.SER_MARSHAL, payload))
                     m = _read_msg(sk)
@@ -382,14 +401,19 @@ class PoolWorld(World):
                 t.join(120.0)
             sched.quiesce()
             ctx.nontrivial = bool(sched.choices) and (overlap[1] >= 2 or any(r["state"] == "refused" for r in results.values()))
+            nsilent = sum(1 for j in plan["jobs"] if j.get("silent"))
+            # each silent client can hold the accept loop (refusal handshake) for at most COMMTIMEOUT
+            wait_bound = 1.0 + plan.get("commtimeout", 0.0) * nsilent
             for i, r in sorted(results.items()):
                 stt = r["state"]
+                if stt == "silent":
+                    continue
                 if stt == "refused":
                     ctx.probe("refused")
                     ctx.probe("refused_on_wire")
                     if "free workers" not in str(r.get("reason", "")):
                         ctx.violate("refusal-without-reason", "", "client %d: CONNECTFAIL %r" % (i, r.get("reason")))
-                    if r["t1"] - r["t0"] > 1.0 and not sched.stalls:
+                    if r["t1"] - r["t0"] > wait_bound and not sched.stalls:
                         ctx.violate("refusal-not-immediate", "", "client %d waited %.3fs for its refusal" % (i, r["t1"] - r["t0"]))
                     if served.get(r.get("conn"), 0):
                         ctx.violate("refused-job-ran", "", "client %d was refused but its connection job ran" % i)
@@ -399,7 +423,7 @@ class PoolWorld(World):
                         ctx.violate("job-ran-twice" if n > 1 else "job-dropped", "", "client %d: connection job ran %d times" % (i, n))
                     if r.get("ok") != plan["jobs"][i]["calls"]:
                         ctx.violate("connection-not-served", "", "client %d got %r of %d replies" % (i, r.get("ok"), plan["jobs"][i]["calls"]))
-                    if r["t1"] - r["t0"] > 1.0 and not sched.stalls:
+                    if r["t1"] - r["t0"] > wait_bound and not sched.stalls:
                         ctx.violate("client-left-waiting", "", "client %d waited %.3fs for CONNECTOK" % (i, r["t1"] - r["t0"]))
                 elif stt == "dropped":
                     ctx.violate("connection-dropped-silently", "", "client %d: connection closed without any reply" % i)
